@@ -282,6 +282,7 @@ def reply_cases():
     for f in sorted(x for x in fault_catalogue() if x.startswith("reply-")):
         cases.append(([f], "cwd", False))
         cases.append((["ok", f], "given", False))
+        cases.append((["exit1", f], "cwd", False))      # after a generator that has already failed: still decoded, still reported
     return cases
 
 
